@@ -508,12 +508,17 @@ macro_rules! impl_io_uring {
                 $($arg: $arg_type),*
             ) -> std::io::Result<Arc<(Mutex<Option<c_longlong>>, Condvar)>> {
                 let token = EventLoop::token(SyscallName::$syscall);
-                self.operator.$syscall(token, $($arg, )*)?;
+                // register the waiter before the submission can complete: a completion
+                // that finds no waiter is dropped and the caller would wait forever
                 let arc = Arc::new((Mutex::new(None), Condvar::new()));
                 assert!(
                     self.syscall_wait_table.insert(token, arc.clone()).is_none(),
                     "The previous token was not retrieved in a timely manner"
                 );
+                if let Err(e) = self.operator.$syscall(token, $($arg, )*) {
+                    _ = self.syscall_wait_table.remove(&token);
+                    return Err(e);
+                }
                 Ok(arc)
             }
         }
